@@ -227,7 +227,115 @@ func vBig() valOps[bigVal] {
 	}, hasID: true}
 }
 
-var valTypes = []string{"i64", "str", "ptr", "bytes", "empty", "big"}
+// bigFlat has exactly the size of bigVal and no pointer at all: the pair lets
+// recycled memory change hands between two pointer layouts of one size.
+type bigFlat struct {
+	ID  uint64
+	Pad [unsafe.Sizeof(bigVal{}) - 8]byte
+}
+
+type arrVal struct {
+	N    uint64
+	Refs [2]*payload // every pointer of the type sits inside an array
+}
+
+func vFunc() valOps[func() uint64] {
+	return valOps[func() uint64]{mk: func(id uint64) func() uint64 {
+		p := &payload{ID: id, S: valStr(id)} // the closure is the only reference to p
+		return func() uint64 {
+			if p.S != valStr(p.ID) {
+				return ^uint64(0)
+			}
+			return p.ID
+		}
+	}, id: func(f func() uint64) (uint64, bool) {
+		if f == nil {
+			return 0, false
+		}
+		id := f()
+		return id, id != ^uint64(0)
+	}, hasID: true}
+}
+
+func vChan() valOps[chan *payload] {
+	return valOps[chan *payload]{mk: func(id uint64) chan *payload {
+		c := make(chan *payload, 1)
+		c <- &payload{ID: id, S: valStr(id)}
+		return c
+	}, id: func(c chan *payload) (uint64, bool) {
+		if c == nil || len(c) != 1 {
+			return 0, false
+		}
+		p := <-c
+		c <- p
+		if p == nil {
+			return 0, false
+		}
+		return p.ID, p.S == valStr(p.ID)
+	}, hasID: true}
+}
+
+func vUPtr() valOps[unsafe.Pointer] {
+	return valOps[unsafe.Pointer]{mk: func(id uint64) unsafe.Pointer {
+		return unsafe.Pointer(&payload{ID: id, S: valStr(id)})
+	}, id: func(u unsafe.Pointer) (uint64, bool) {
+		if u == nil {
+			return 0, false
+		}
+		p := (*payload)(u)
+		return p.ID, p.S == valStr(p.ID)
+	}, hasID: true}
+}
+
+func vArr() valOps[arrVal] {
+	return valOps[arrVal]{mk: func(id uint64) arrVal {
+		return arrVal{N: id, Refs: [2]*payload{{ID: id, S: valStr(id)}, {ID: id + 1, S: valStr(id + 1)}}}
+	}, id: func(v arrVal) (uint64, bool) {
+		if v.Refs[0] == nil || v.Refs[1] == nil {
+			return v.N, false
+		}
+		return v.N, v.Refs[0].ID == v.N && v.Refs[0].S == valStr(v.N) && v.Refs[1].ID == v.N+1 && v.Refs[1].S == valStr(v.N+1)
+	}, hasID: true}
+}
+
+func vIface() valOps[any] {
+	return valOps[any]{mk: func(id uint64) any { return &payload{ID: id, S: valStr(id)} }, id: func(v any) (uint64, bool) {
+		p, ok := v.(*payload)
+		if !ok || p == nil {
+			return 0, false
+		}
+		return p.ID, p.S == valStr(p.ID)
+	}, hasID: true}
+}
+
+func vMap() valOps[map[uint64]*payload] {
+	return valOps[map[uint64]*payload]{mk: func(id uint64) map[uint64]*payload {
+		return map[uint64]*payload{id: {ID: id, S: valStr(id)}}
+	}, id: func(m map[uint64]*payload) (uint64, bool) {
+		if len(m) != 1 {
+			return 0, false
+		}
+		for k, p := range m {
+			return k, p != nil && p.ID == k && p.S == valStr(k)
+		}
+		return 0, false
+	}, hasID: true}
+}
+
+func vBigFlat() valOps[bigFlat] {
+	mk := func(id uint64) bigFlat {
+		v := bigFlat{ID: id}
+		for i := range v.Pad {
+			v.Pad[i] = byte(id) ^ byte(i*3)
+		}
+		return v
+	}
+	return valOps[bigFlat]{mk: mk, id: func(v bigFlat) (uint64, bool) { return v.ID, v == mk(v.ID) }, hasID: true}
+}
+
+// the order matters for C18, which gives the trees of one run consecutive types:
+// big/bigflat (one size, two pointer layouts) and i64/ptr/uptr (one size) are neighbours
+var valTypes = []string{"i64", "ptr", "uptr", "str", "bytes", "empty", "big", "bigflat", "arr", "func", "chan", "iface", "map"}
 
 func valHasID(vt string) bool { return vt != "empty" }
 
@@ -800,6 +908,20 @@ func newTree(kt KeyType, val string, spareCodec bool, codec string) TreeAPI {
 		return withKey(kt, spareCodec, codec, vEmpty())
 	case "big":
 		return withKey(kt, spareCodec, codec, vBig())
+	case "bigflat":
+		return withKey(kt, spareCodec, codec, vBigFlat())
+	case "arr":
+		return withKey(kt, spareCodec, codec, vArr())
+	case "func":
+		return withKey(kt, spareCodec, codec, vFunc())
+	case "chan":
+		return withKey(kt, spareCodec, codec, vChan())
+	case "uptr":
+		return withKey(kt, spareCodec, codec, vUPtr())
+	case "iface":
+		return withKey(kt, spareCodec, codec, vIface())
+	case "map":
+		return withKey(kt, spareCodec, codec, vMap())
 	}
 	panic("newTree: bad value type " + val)
 }
